@@ -116,7 +116,11 @@ def run_seed(run, cfg, site, seed_url, seed_id="seed", hops=0, max_passes=12, dc
     def send_cfg(first=False):
         m = dict(cfg, op="cfg", resetSeen=(first and not keep_seen), regexExcluded=sorted(regex_excluded), dcMatch=sorted(dcm))
         run.model_lines.append(json.dumps(m)); run.impl_outs.append("ok")
-    h.send(cfg_impl)
+    out = h.send(cfg_impl)
+    if out.startswith("harness-error"):
+        # the crawler refuses to start with this configuration (GenerateCrawlConfig failed)
+        trace["refused"] = out
+        return "refused", None, trace
     send_cfg(first=True)
     out = run.both({"op": "seed", "id": seed_id, "url": seed_url, "hops": hops, "via": ""})
     if out == "unparsable":
